@@ -42,10 +42,12 @@ void KeyManager::register_session_with_material(const PeerId& peer_id,
     const auto mac = crypto::HmacSha256::compute(key_span, material);
     context.current_key = mac;
 
+    std::scoped_lock lock(mutex_);
     contexts_[peer_id_to_string(peer_id)] = context;
 }
 
 std::optional<std::array<std::uint8_t, 32>> KeyManager::current_key(const PeerId& peer_id) const {
+    std::scoped_lock lock(mutex_);
     const auto it = contexts_.find(peer_id_to_string(peer_id));
     if (it == contexts_.end()) {
         return std::nullopt;
@@ -55,6 +57,7 @@ std::optional<std::array<std::uint8_t, 32>> KeyManager::current_key(const PeerId
 
 std::optional<std::array<std::uint8_t, 32>> KeyManager::rotate_if_needed(const PeerId& peer_id,
                                                                          std::chrono::steady_clock::time_point now) {
+    std::scoped_lock lock(mutex_);
     auto it = contexts_.find(peer_id_to_string(peer_id));
     if (it == contexts_.end()) {
         return std::nullopt;
@@ -92,6 +95,7 @@ std::array<std::uint8_t, 32> KeyManager::derive_key(const crypto::Key& shared_se
 }
 
 std::vector<PeerId> KeyManager::known_peers() const {
+    std::scoped_lock lock(mutex_);
     std::vector<PeerId> peers;
     peers.reserve(contexts_.size());
     for (const auto& [key, context] : contexts_) {
